@@ -9,6 +9,7 @@ import (
 	"encoding/json"
 	"io"
 	"os"
+	"runtime/coverage"
 
 	"verif/hostkit"
 	"verif/sb"
@@ -22,10 +23,27 @@ func main() {
 	if devnull != nil {
 		os.Stdout = devnull
 	}
+	// Coverage measurement (tools/coverage.sh): workers are killed, never exit, so a worker built with
+	// -cover writes its counters itself every few hundred requests. Without -cover the calls fail quietly.
+	covDir := os.Getenv("VERIF_COVDIR")
+	served := 0
+	if covDir != "" {
+		os.MkdirAll(covDir, 0o755)
+		if err := coverage.WriteMetaDir(covDir); err != nil {
+			os.Stderr.WriteString("coverage: " + err.Error() + "\n")
+		}
+	}
 	for {
 		var n uint32
 		if err := binary.Read(in, binary.LittleEndian, &n); err != nil {
+			if covDir != "" {
+				coverage.WriteCountersDir(covDir)
+			}
 			return
+		}
+		if served++; covDir != "" && served%300 == 0 {
+			coverage.WriteCountersDir(covDir)
+			coverage.ClearCounters()
 		}
 		buf := make([]byte, n)
 		if _, err := io.ReadFull(in, buf); err != nil {
